@@ -61,17 +61,18 @@ func init() {
 			"needle_aligned_found":                 300,
 			"needle_bytes_present_clusters_absent": 60,
 			"needle_empty":                         40,
-			"equivalent_pair_compared":             60,
-			"expected_failure_observed":            500,
-			"expected_failure_slice_range":         50,
-			"expected_failure_slice_reversed":      30,
-			"expected_failure_index":               50,
-			"expected_failure_decodeHex":           50,
-			"split_multi_part":                     100,
-			"replace_changed":                      100,
-			"concat_joins_clusters":                40,
-			"tolower_changed":                      100,
-			"tag_mark":                             100, "tag_emoji": 100, "tag_regional": 100, "tag_hangul": 100, "tag_crlf": 100,
+			"needle_misaligned_occurrence_overlaps_aligned": 60,
+			"equivalent_pair_compared":                      60,
+			"expected_failure_observed":                     500,
+			"expected_failure_slice_range":                  50,
+			"expected_failure_slice_reversed":               30,
+			"expected_failure_index":                        50,
+			"expected_failure_decodeHex":                    50,
+			"split_multi_part":                              100,
+			"replace_changed":                               100,
+			"concat_joins_clusters":                         40,
+			"tolower_changed":                               100,
+			"tag_mark":                                      100, "tag_emoji": 100, "tag_regional": 100, "tag_hangul": 100, "tag_crlf": 100,
 			"tag_zwj_vs": 100, "tag_decomposed": 100, "tag_precomposed": 100, "tag_empty": 30,
 		},
 	})
@@ -229,6 +230,55 @@ func pickNeedle(r *rand.Rand, S, O mstr, use func(string)) (string, string) {
 	}
 }
 
+// overlapFamily builds a haystack in which a self-overlapping needle occurs first at a byte offset inside
+// a cluster and then, overlapping that occurrence, at a cluster boundary: a glue g that joins the
+// following unit u into one cluster (regional indicator pair, CR LF, Prepend, ZWJ, Hangul L + LV),
+// followed by repetitions of u (needle u·j) or of u p (needle u p u … u).
+func overlapFamily(r *rand.Rand) (hay, needle string) {
+	ri := func() string { return string(rune(0x1F1E6 + r.IntN(26))) }
+	type gu struct{ g, u string }
+	fam := []gu{
+		{ri(), ri()}, {ri(), ri()}, {"\r", "\n"}, {"\r", "\n"}, {"\u0600", "a"}, {"\u0600", "e\u0301"}, {"\u0D4E", "\u4E2D"},
+		{"\U0001F468\u200D", "\U0001F469"}, {"\U0001F469\u200D", "\u2764"}, {"\U0001F3F3\uFE0F\u200D", "\U0001F308"},
+		{"\u1100", "\uAC00"}, {"\u1102", "\uAC01"}, {"\u0600", "\U0001F600"}, {"\u0600", "\u0600b"},
+	}
+	f := fam[r.IntN(len(fam))]
+	if f.g == f.u && r.IntN(2) == 0 { // same regional indicator: keep some, they shift the parity
+		f.g = ri()
+	}
+	p := ""
+	if r.IntN(3) == 0 {
+		p = []string{"x", "-", "\n", "\u0301", " "}[r.IntN(5)]
+	}
+	k := 2 + r.IntN(4) // repetitions in the haystack
+	j := 2 + r.IntN(2) // repetitions in the needle (self-overlapping)
+	var sb strings.Builder
+	switch r.IntN(4) {
+	case 0:
+		sb.WriteString(genString(r, 2, func(string) {}))
+	case 1:
+		sb.WriteString(f.u) // an aligned occurrence may start before the glue as well
+	}
+	segs := 1 + r.IntN(2)
+	for sgm := 0; sgm < segs; sgm++ {
+		sb.WriteString(f.g)
+		for i := 0; i < k; i++ {
+			if i > 0 {
+				sb.WriteString(p)
+			}
+			sb.WriteString(f.u)
+		}
+		if sgm+1 < segs {
+			sb.WriteString([]string{"", "q", " ", p}[r.IntN(4)])
+		}
+	}
+	if r.IntN(3) == 0 {
+		sb.WriteString(genString(r, 2, func(string) {}))
+	}
+	needle = strings.Repeat(f.u+p, j-1) + f.u
+	return sb.String(), needle
+}
+
 // isBoundary reports whether byte offset off of the joined clusters is a cluster boundary.
 func isBoundary(g []string, off int) bool {
 	p := 0
@@ -273,6 +323,10 @@ func buildGroup(c *core.Ctx) c19Group {
 	use := func(tag string) { c.Inc("tag_" + tag) }
 	g := c19Group{}
 	g.S = genString(r, 8, use)
+	overlapNeedle, overlap := "", r.IntN(5) == 0
+	if overlap {
+		g.S, overlapNeedle = overlapFamily(r)
+	}
 	S := model(g.S)
 	switch k := r.IntN(20); {
 	case k < 5: // canonically equivalent spelling of the subject
@@ -296,6 +350,9 @@ func buildGroup(c *core.Ctx) c19Group {
 	}
 	O := model(g.O)
 	g.N, g.NeedleKind = pickNeedle(r, S, O, use)
+	if overlap {
+		g.N, g.NeedleKind = overlapNeedle, "self-overlapping"
+	}
 	N := model(g.N)
 	switch r.IntN(6) {
 	case 0:
@@ -373,6 +430,13 @@ func buildGroup(c *core.Ctx) c19Group {
 	add("contains", "s.contains(n)", mB(ix >= 0))
 	add("index(of:)", "s.index(of: n)", mI(ix))
 	add("count", "s.count(n)", mI(countClusters(S.G, N.G)))
+	// the leftmost byte occurrence is cluster-misaligned and overlaps a later, aligned occurrence
+	if fb := strings.Index(S.T, N.T); ix >= 0 && len(N.T) > 0 && fb >= 0 {
+		ab := len(strings.Join(S.G[:ix], ""))
+		if fb < ab && ab < fb+len(N.T) {
+			c.Inc("needle_misaligned_occurrence_overlaps_aligned")
+		}
+	}
 	switch {
 	case len(N.G) == 0:
 		c.Inc("needle_empty")
